@@ -11,7 +11,18 @@ def region_entries(func):
     return ents
 
 
+_REACH_CACHE = {}
+
+
 def reachable_blocks(func, start):
+    key = (id(func), start)
+    r = _REACH_CACHE.get(key)
+    if r is None:
+        r = _REACH_CACHE[key] = frozenset(_reachable_blocks(func, start))
+    return r
+
+
+def _reachable_blocks(func, start):
     seen = set()
     work = [start]
     while work:
